@@ -314,3 +314,45 @@ Print Assumptions C12_unknown_asset_option.
 Print Assumptions C12_no_report_on_rejection.
 Print Assumptions C12_nonvacuous_fault_in_sheet.
 Print Assumptions C12_nonvacuous_repeated_after_empty_table.
+
+(** ---------- end to end, with the later stages plugged in (Model/EndToEnd.v [rp2_model] = [front_end] composed with the bridge
+    to the transaction sets, the matcher, the report input and the report models; Proofs/EndToEndFront.v): a rejected option /
+    configuration / sheet means a non-zero exit status and NO report of the composed run.  One-line corollary of
+    [C12_no_report_on_rejection] through the file-name view of the run (which IS [front_end]). *)
+From RP2V Require Import Model.Grid Model.ReportInput Model.MainRun Model.RunCompose Model.EndToEnd Proofs.EndToEndFront.
+Theorem C12_end_to_end_no_report : forall c o secs ts workbook v envp,
+  fst (options_check c (l1_options o) (validate_config secs)) <> 0 \/
+  is_err (validate_config secs) \/
+  (exists s, validate_config secs = Ok s /\
+             is_err (parse_all (pcfg_of s ts) (snd (options_check c (l1_options o) (validate_config secs))) workbook 0)) ->
+  fst (rp2_model c o secs ts workbook v envp) <> 0 /\ snd (rp2_model c o secs ts workbook v envp) = [].
+Proof. exact e2e_front_rejection. Qed.
+(** ... in particular the sheet of any processed asset, after any accepted ones, is missing or rejected by the parser *)
+Theorem C12_end_to_end_faulty_sheet : forall c o secs ts workbook v envp s pre a post ps,
+  validate_config secs = Ok s ->
+  snd (options_check c (l1_options o) (Ok s)) = pre ++ a :: post ->
+  parse_all (pcfg_of s ts) pre workbook 0 = Ok ps ->
+  (match workbook a with
+   | None => True
+   | Some rows => is_err (parse_sheet (pcfg_of s ts) a (match rev ps with [] => 0 | (_, p) :: _ => pa_counter p end) rows)
+   end) ->
+  fst (rp2_model c o secs ts workbook v envp) <> 0 /\ snd (rp2_model c o secs ts workbook v envp) = [].
+Proof. exact e2e_sheet_rejected. Qed.
+(** the run's file-name view is [front_end] applied to the named reports of the back end *)
+Theorem C12_end_to_end_is_front_end : forall c o secs ts workbook v envp,
+  exists f, rp2_files c o secs ts workbook v envp =
+            (fst (rp2_model c o secs ts workbook v envp), map f (snd (rp2_model c o secs ts workbook v envp))).
+Proof. exact rp2_model_files. Qed.
+
+(** non-vacuity: rp2_es -m lifo on ANY configuration / workbook, and rp2_us with an empty configuration file *)
+Theorem C12_end_to_end_nonvacuous : forall secs ts workbook v envp,
+  let o := {| o_method := Some [108; 105; 102; 111]; o_lang := None; o_from := 0; o_to := 10; o_asset := None; o_neg := false;
+              o_prefix := []; o_plugin := false |} in
+  (fst (rp2_model ES o secs ts workbook v envp) <> 0 /\ snd (rp2_model ES o secs ts workbook v envp) = []) /\
+  (fst (rp2_model US o [] ts workbook v envp) <> 0 /\ snd (rp2_model US o [] ts workbook v envp) = []).
+Proof. exact e2e_front_rejection_nonvacuous. Qed.
+
+Print Assumptions C12_end_to_end_no_report.
+Print Assumptions C12_end_to_end_nonvacuous.
+Print Assumptions C12_end_to_end_faulty_sheet.
+Print Assumptions C12_end_to_end_is_front_end.
